@@ -7,6 +7,7 @@ CONSTANTS
   WCounts <- MC_None
   SOffs = {0}
   VBufs <- MC_None
+  MFmts <- MC_None
   VSizes = {0}
   Extra = {"getiter", "calliter", "close", "readline", "seek0"}
   Naive = FALSE
